@@ -19,7 +19,7 @@ from harness import core, scen, tree as T, world as W
 from harness.props import c09
 
 STEPPER = os.path.join(os.path.dirname(os.path.abspath(__file__)), "stepper.py")
-NAMES = ["a.txt", "src/b.c", "ünï.txt", "docs/r e.md", "empty", "lib/deep/x.py"]
+NAMES = ["a.txt", "src/b.c", "ünï.txt", "docs/r e.md", "empty", "lib/deep/x.py", "docs/cafe\u0301.txt"]
 
 
 def snapshot(d):
@@ -142,7 +142,12 @@ def apply_file_tamper(rng, work, kind, opts=None):
     elif kind == "delete":
         os.remove(p)
     elif kind == "rename":
-        os.rename(p, p + ".moved")
+        import unicodedata
+        other = [f for f in (unicodedata.normalize("NFC", p), unicodedata.normalize("NFD", p)) if f != p]
+        if other and not os.path.exists(other[0]) and rng.random() < 0.7:
+            os.rename(p, other[0])        # the same name in the other Unicode normalisation form: another file name
+        else:
+            os.rename(p, p + ".moved")
     elif kind == "rewrite":
         data = open(p, "rb").read()
         os.remove(p)
